@@ -4,6 +4,7 @@ package main
 // at any byte (DESIGN.md §2.8).  Only what storage/filelog needs.
 
 import (
+	"strings"
 	"fmt"
 	"go/types"
 	"path/filepath"
@@ -98,6 +99,9 @@ func registerFiles(m map[string]intrinsicFn) {
 	m["(*os.File).Close"] = func(in *Interp, fn *ssa.Function, args []Value) Value { return IfaceV{} }
 	readAll := func(in *Interp, fn *ssa.Function, args []Value) Value {
 		iv := args[0].(IfaceV)
+		if iv.T == nil || !strings.HasSuffix(iv.T.String(), "os.File") {
+			return runRealBody{} // readers other than model files: the real io.ReadAll runs
+		}
 		h := handle(in, iv.V)
 		content := in.fs().files[h.name][h.readPos:]
 		h.readPos += len(content)
